@@ -1391,6 +1391,61 @@ func responseIndicesAreUnique(c *kit.Ctx) {
 		k, isConst := eng.Lin(ia.Index).Sub(eng.Lin(idx)).IsConst()
 		return isConst && k == -1
 	}
+	// a region-level exception answers every call of that region: those calls are marked as well (and a marked one
+	// among them is rejected), otherwise a response that fails a region and also carries a result for one of its calls
+	// answers that call twice
+	{
+		callsF := c.P.Field("region", "multi", "calls")
+		marksRegion, rejects := false, false
+		kit.Instrs(d, func(in ssa.Instruction) {
+			underRegionException := func(b *ssa.BasicBlock) bool {
+				for _, f := range kit.FactsAt(b) {
+					cmp, ok := kit.CanonCmp(f.Cond, f.Pol)
+					if !ok || cmp.Op != token.NEQ || !kit.IsNilConst(cmp.Y) {
+						continue
+					}
+					if call, ok := kit.Root(cmp.X).(*ssa.Call); ok {
+						if fn := kit.StaticCallee(call); fn != nil && fn.Name() == "GetException" && strings.Contains(fn.Signature.Recv().Type().String(), "RegionActionResult") {
+							return true
+						}
+					}
+				}
+				return false
+			}
+			isSlotOfCallIndex := func(addr ssa.Value) bool {
+				ia, ok := addr.(*ssa.IndexAddr)
+				if !ok {
+					return false
+				}
+				sl, ok := ia.X.Type().Underlying().(*types.Slice)
+				if !ok {
+					return false
+				}
+				if bt, ok := sl.Elem().Underlying().(*types.Basic); !ok || bt.Kind() != types.Bool {
+					return false
+				}
+				rng, isR := rangeOfIndex(ia.Index)
+				return isR && callsF != nil && isLoadOfField(rng, callsF)
+			}
+			switch x := in.(type) {
+			case *ssa.Store:
+				if kc, ok := x.Val.(*ssa.Const); ok && kc.Value != nil && kc.Value.ExactString() == "true" && isSlotOfCallIndex(x.Addr) && underRegionException(x.Block()) {
+					marksRegion = true
+				}
+			case *ssa.If:
+				if l, ok := x.Cond.(*ssa.UnOp); ok && l.Op == token.MUL && isSlotOfCallIndex(l.X) && underRegionException(x.Block()) {
+					for _, y := range kit.SuccOnTrue(x).Instrs {
+						if r, ok := y.(*ssa.Return); ok {
+							if ev := returnedError(r); ev != nil && !kit.IsNilConst(kit.Root(ev)) {
+								rejects = true
+							}
+						}
+					}
+				}
+			}
+		})
+		c.Check(marksRegion && rejects, d, "region-exception-answers-its-calls", d.Pos(), "a region-level exception marks every call of that region as answered and rejects one that already is", "a region-level exception does not count as the answer of the calls of that region: a response that fails a region and also carries a result for one of its calls answers that call twice - the second send blocks the connection's reader goroutine")
+	}
 	for _, idx := range idxCalls {
 		var marks []ssa.Instruction
 		tested := false
@@ -1442,6 +1497,23 @@ func responseIndicesAreUnique(c *kit.Ctx) {
 				return isRet
 			},
 		})
+		// the record of what has been answered covers the whole response: it is not made anew inside a loop
+		whole := len(marks) > 0
+		for _, m := range marks {
+			ia := m.(*ssa.Store).Addr.(*ssa.IndexAddr)
+			mk, ok := kit.Root(ia.X).(*ssa.MakeSlice)
+			if !ok {
+				if ph, isPhi := kit.Root(ia.X).(*ssa.Phi); isPhi {
+					_ = ph
+				}
+				whole = false
+				continue
+			}
+			if kit.Reaches(mk, mk) {
+				whole = false
+			}
+		}
+		c.Check(whole, d, "answered-record-spans-the-response", idx.Pos(), "the record of answered actions is allocated once per response", "the record of which actions have been answered is allocated anew inside a loop (per region result): the same action index answered in two region results of one response is accepted - the call gets two results and the second send blocks the connection's reader goroutine")
 		c.Check(tested && len(marks) > 0 && e == nil, d, "response-indices-unique", idx.Pos(), "every accepted action index is marked in a []bool and a marked one is rejected", "the decoder accepts a multi response that mentions the same action index more than once: returnResults then sends more than one result to the call's capacity-1 channel, the connection's reader goroutine blocks for ever and nobody on the connection is answered any more: "+c.BlockPath(e))
 	}
 }
